@@ -94,6 +94,10 @@ func (a *Application) providerProxyHandler(w http.ResponseWriter, r *http.Reques
 		return
 	}
 
+	if a.writeRoutingRejection(w, pr) {
+		return
+	}
+
 	if len(endpoints) == 0 {
 		http.Error(w, fmt.Sprintf("No %s endpoints available", providerType), http.StatusNotFound)
 		return
@@ -143,7 +147,9 @@ func (a *Application) getProviderEndpoints(ctx context.Context, providerType str
 			providerEndpoints = append(providerEndpoints, endpoint)
 		}
 	}
-	if len(providerEndpoints) == 0 {
+	// (a request that names a model still goes through model routing below, so that it is
+	// answered 404 "model not found" / 503 "model unavailable" rather than a bare 404)
+	if len(providerEndpoints) == 0 && (pr.profile == nil || pr.profile.ModelName == "") {
 		return providerEndpoints, nil
 	}
 
